@@ -10,6 +10,7 @@
 -/
 import IocProofs.Lemmas.Order
 import Ioc.Generated.Facts
+import IocProofs.Lemmas.SemOrder
 namespace Ioc.C12
 open Ioc Ioc.Order
 
@@ -363,5 +364,32 @@ example :
       [⟨.plain, 0⟩, ⟨.prio 1, 1⟩] [⟨.ord 3, 0⟩, ⟨.prio 2, 1⟩, ⟨.plain, 2⟩] [⟨.ord 1, 0⟩, ⟨.ord (-1), 1⟩]
     g.err = false ∧ g.before.map (·.id) = [1, 0, 2] ∧ (firsts g.inst).map (·.id) = [0, 2] ∧
       g.runs.map (·.id) = [1, 0] ∧ (seconds g.loads).map (·.id) = [1, 0] := by decide
+
+/-! ### the tie to the code: SortOrderedComponents and its comparator ARE the regenerated programs
+
+`Ioc.Progs.sortOrderedComponents` / `Ioc.Progs.orderedComponentComparator` are the syntax trees of the two functions of
+util/framework_helper/order_component.go, re-translated from /repo's source on every run (MiniGo, Ioc.GoSem).  Run by the
+interpreter — the two type assertions answered by `part`, `sort2.Slice` an ARBITRARY function `sort` — the first computes
+exactly `Order.sortOrdered sort part` (partition in the given order, sort the priority and the ordered bucket with the
+comparator, concatenate priority ++ ordered ++ rest); the second is `Order() < Order()` and panics (stuck) exactly when a
+participant has no `Order()`.  Every theorem above about `sortOrdered` is thereby a theorem about this code; a rewrite of
+either function (which the seeded changes C10C, C12A, C13A, C13C, C15D all were) changes the term these proofs are about. -/
+
+theorem C12_code_sortOrderedComponents (sort : (Nat → Nat → Bool) → List Nat → List Nat) (part : Nat → Part)
+    (hs : SortSpec part sort) (l : List Nat) :
+    Go.run (Sem.sortPrims sort part) Progs.sortOrderedComponents [.list (l.map Sem.encR)] () =
+      some (.list ((sortOrdered sort part l).map Sem.encR), ()) :=
+  Sem.sortOrderedComponents_sem sort part (Sem.sort_nil_of_spec sort part hs) l
+
+theorem C12_code_comparator (part : Nat → Part) (i j : Nat) :
+    Go.run (Sem.cmpPrims part) Progs.orderedComponentComparator [.ref i 0, .ref j 0] () =
+      (less? part i j).map (fun b => (.bool b, ())) :=
+  Sem.comparator_sem part i j
+
+/-- non-vacuity: five participants (2 priority, 2 ordered, 1 plain) with insertion sort -/
+example : Go.run (Sem.sortPrims (fun lt l => isort lt l) (fun i => [Part.plain, .ord 5, .prio 9, .ord (-3), .prio 1].getD i .plain))
+    Progs.sortOrderedComponents [.list ([0, 1, 2, 3, 4].map Sem.encR)] () =
+    some (.list ([4, 2, 3, 1, 0].map Sem.encR), ()) :=
+  (Sem.sortOrderedComponents_sem _ _ (by rfl) _).trans (by rfl)
 
 end Ioc.C12
